@@ -138,7 +138,7 @@ func smtName(n string) string {
 	var sb strings.Builder
 	for _, r := range n {
 		switch {
-		case r >= 'a' && r <= 'z', r >= 'A' && r <= 'Z', r >= '0' && r <= '9', strings.ContainsRune("_.!$#@%^&*-+<>/?~", r):
+		case r >= 'a' && r <= 'z', r >= 'A' && r <= 'Z', r >= '0' && r <= '9', strings.ContainsRune("_.!$@%^&*-+<>/?~", r):
 			sb.WriteRune(r)
 		default:
 			sb.WriteByte('_')
@@ -673,6 +673,7 @@ func (t *Term) String() string {
 type smtWriter struct {
 	sb       strings.Builder
 	done     map[int]string // term id -> name or inline text
+	apps     []*Term        // ground uninterpreted applications emitted
 	declared map[string]bool
 	funs     map[string]bool
 }
@@ -765,6 +766,9 @@ func (w *smtWriter) emit(t *Term) string {
 			s = head
 		} else {
 			s = "(" + head + " " + strings.Join(args, " ") + ")"
+		}
+		if !hasBound && t.Op == "app" {
+			w.apps = append(w.apps, t)
 		}
 		if !hasBound {
 			name := fmt.Sprintf("n%d", t.id)
